@@ -806,7 +806,9 @@ func (w *World) opCursor(op *Op) {
 	if !check(place) {
 		return
 	}
-	offEnd := false
+	// a placement that yields "no entry" (empty tree, probe above the maximum) leaves
+	// nothing to step from: further moves are unspecified by the property
+	offEnd := pos < 0 || pos >= n
 	for _, mv := range op.S {
 		if offEnd {
 			break // after stepping off an end the position is "no entry"; further moves are unspecified
